@@ -193,9 +193,10 @@ fn render_variable_field_type(
     options: &GraphQLClientCodegenOptions,
     query: &BoundQuery<'_>,
 ) -> TokenStream {
+    // `field_type`, like for input object fields: it leaves `ID` (and `__` names) alone.
     let normalized_name = options
         .normalization()
-        .input_name(variable.type_name(query.schema));
+        .field_type(variable.type_name(query.schema));
     let safe_name = shared::keyword_replace(normalized_name.clone());
     let full_name = Ident::new(safe_name.as_ref(), Span::call_site());
 
